@@ -25,7 +25,8 @@ Definition dy_round_sticky (p : Z) (a : dy) (sticky : bool) : dy :=
   if (l <=? p) then a   (* only used with sticky = false in this case, or with l > p guaranteed *)
   else
     let k := l - p in
-    let q := am / 2 ^ k in let r := am mod 2 ^ k in let half := 2 ^ (k - 1) in
+    (* q = am / 2^k, r = am mod 2^k, half = 2^(k-1), written with shifts (same values, cheaper to evaluate) *)
+    let q := Z.shiftr am k in let r := am - Z.shiftl q k in let half := Z.shiftl 1 (k - 1) in
     let up := (r >? half) || ((r =? half) && (sticky || Z.odd q)) in
     mkdy (Z.sgn m * (if up then q + 1 else q)) (de a + k).
 Definition dy_round (p : Z) (a : dy) : dy := dy_round_sticky p a false.
@@ -45,7 +46,7 @@ Definition dy_div_r (p : Z) (a b : dy) : dy :=
 
 (* conversions to integers *)
 Definition dy_trunc (a : dy) : Z :=            (* C cast: toward zero *)
-  if de a >=? 0 then dm a * 2 ^ (de a) else Z.quot (dm a) (2 ^ (- de a)).
+  if de a >=? 0 then Z.shiftl (dm a) (de a) else Z.sgn (dm a) * Z.shiftr (Z.abs (dm a)) (- de a).
 Definition dy_round_half_away (a : dy) : Z :=  (* std::round *)
   if de a >=? 0 then dm a * 2 ^ (de a)
   else let d := 2 ^ (- de a) in
